@@ -8,16 +8,35 @@ import (
 
 // C12: a file partially applied (k of m statements) is edited to n
 // statements; the next Execute must refuse iff the applied prefix changed.
-func verifC12(maxM, maxN, stmtLen int, rerun bool) {
+func verifC12(maxM, maxN, stmtLen int, rerun bool) { verifC12src(maxM, maxN, stmtLen, rerun, false) }
+
+// verifC12Sums: statement texts whose recorded hashes (base64 of the real SHA-256, computed by the
+// engine for concrete texts) begin with each character of the "h1:" prefix the revision stores them
+// under, or with none of them: stripping the prefix must not eat into the hash.
+var verifC12Sums = []string{"s0", "s16", "s53", "s93", "s80"} // digests begin with "7", "h", "1", "hl", "1S"
+
+func verifC12src(maxM, maxN, stmtLen int, rerun, concrete bool) {
 	m := verifChoice("m", maxM-1) + 2 // 2..maxM old statements
 	n := verifChoice("n", maxN+1)     // 0..maxN new statements
 	k := verifChoice("k", m)          // 0..m-1 applied before the failure
 	old := make([]string, m)
 	cur := make([]string, n)
 	for i := range old {
+		if concrete {
+			old[i] = verifC12Sums[verifChoice(fmt.Sprintf("o%d", i), len(verifC12Sums))]
+			continue
+		}
 		old[i] = verifString(fmt.Sprintf("o%d", i), stmtLen)
 	}
 	for i := range cur {
+		if concrete {
+			// the same statement as before (where there was one) or another one
+			cur[i] = fmt.Sprintf("y%d", i)
+			if i < m && verifChoice(fmt.Sprintf("t%d", i), 2) == 0 {
+				cur[i] = old[i]
+			}
+			continue
+		}
 		cur[i] = verifString(fmt.Sprintf("t%d", i), stmtLen)
 	}
 	ctx := context.Background()
@@ -217,6 +236,7 @@ func verifC12Pending(maxM, maxN, stmtLen int) {
 func VerifHarness_C12_pending()  { verifC12Pending(3, 3, 1) }
 func VerifHarness_C12_twice()    { verifC12Twice(3, 1) }
 func VerifHarness_C12_twice4()   { verifC12Twice(4, 2) }
+func VerifHarness_C12_sums()     { verifC12src(2, 2, 0, true, true) }
 func VerifHarness_C12_quick()    { verifC12(3, 3, 1, false) }
 func VerifHarness_C12_rerun()    { verifC12(3, 3, 1, true) }
 func VerifHarness_C12_thorough() { verifC12(5, 5, 2, true) }
